@@ -164,6 +164,19 @@ func (g *gen) intBinary(t *Type, depth int) Expr {
 	}
 	b.L = g.expr(lt, depth-1)
 	b.R = g.expr(rt, depth-1)
+	if op == "%" && t.S == I32 && g.chance(85, "remnn") && g.f.off("rem.negative") {
+		// (known finding C05-13: the target leaves % with a negative operand undefined) keep most
+		// signed remainders on non-negative operands so that the executions stay comparable
+		g.class("rem:operands-made-non-negative")
+		mask := func(x Expr, xt *Type) Expr {
+			var m Expr = &Lit{T: TI32, Bits: 0x7fffffff}
+			if xt.K != TScalar {
+				m = &Construct{T: xt, Args: []Expr{m}}
+			}
+			return &Binary{Op: "&", L: x, R: m, T: xt}
+		}
+		b.L, b.R = mask(b.L, lt), mask(b.R, rt)
+	}
 	return g.guardConst(b, func() { b.R = g.runtimeOf(rt) })
 }
 
@@ -290,6 +303,16 @@ func (g *gen) intExpr(k Kind, depth int) Expr {
 				}
 			}
 		}
+		if g.inConst == 0 && len(g.inputs) > 0 && g.f.off("dot.int.typed-let-splat") {
+			// (known finding C04-8, MSL: integer dot of a typed let bound to a splat constructor)
+			for i, a := range b.Args {
+				if vr, ok := a.(*VarRef); ok && vr.V.Kind == VLet && !vr.V.NoType {
+					if c, ok := vr.V.Init.(*Construct); ok && len(c.Args) == 1 && c.Args[0].Type() != nil && c.Args[0].Type().K == TScalar {
+						b.Args[i] = g.runtimeOf(Vec(n, k))
+					}
+				}
+			}
+		}
 		return g.guardConst(b, func() { b.Args[0] = g.runtimeOf(Vec(n, k)) })
 	default:
 		if k == U32 && g.f.Floats && !g.f.off("builtin.pack") {
@@ -396,6 +419,9 @@ func (g *gen) boolExpr(depth int) Expr {
 		b := &Binary{Op: op, L: g.expr(Scalar(k), depth-1), R: g.expr(Scalar(k), depth-1), T: TBool}
 		if !IsConstExpr(b) && foldable(b) && g.inConst == 0 && len(g.inputs) > 0 && g.f.off("const-fold.compare-let") {
 			// (known finding C05-17: folded through a let, the result is typed as the operands)
+			b.R = g.runtimeOf(Scalar(k))
+		}
+		if g.f.Overrides && g.inConst == 0 && IsOverrideExpr(b) && !IsConstExpr(b) && g.f.off("override.fold.compare") {
 			b.R = g.runtimeOf(Scalar(k))
 		}
 		return g.guardConst(b, func() { b.R = g.runtimeOf(Scalar(k)) })
@@ -524,7 +550,7 @@ func (g *gen) floatExpr(depth int) Expr {
 		g.class("convert:" + k.String() + "->f32")
 		var src Expr = g.expr(Scalar(k), depth-1)
 		if g.chance(60, "i2fsmall") {
-			src = &Binary{Op: "%", L: src, R: &Lit{T: Scalar(k), Bits: 4096}, T: Scalar(k)}
+			src = &Binary{Op: "%", L: g.nonNegForRem(src, Scalar(k)), R: &Lit{T: Scalar(k), Bits: 4096}, T: Scalar(k)}
 		}
 		c := &Construct{T: t, Args: []Expr{src}}
 		return g.guardConst(c, func() { c.Args[0] = g.runtimeOf(Scalar(k)) })
@@ -694,7 +720,7 @@ func (g *gen) vecExpr(t *Type, depth int) Expr {
 			g.class("convert:vec:" + src.String() + "->f32")
 			st := Vec(t.N, src)
 			var s Expr = g.expr(st, depth-1)
-			s = &Binary{Op: "%", L: s, R: &Construct{T: st, Args: []Expr{&Lit{T: Scalar(src), Bits: 4096}}}, T: st}
+			s = &Binary{Op: "%", L: g.nonNegForRem(s, st), R: &Construct{T: st, Args: []Expr{&Lit{T: Scalar(src), Bits: 4096}}}, T: st}
 			return &Construct{T: t, Args: []Expr{s}}
 		}
 		if src != Bool && src != F32 && g.chance(40, "vbitc") {
@@ -932,4 +958,18 @@ func (g *gen) aggExpr(t *Type, depth int) Expr {
 		}
 		return g.leaf(t, depth)
 	}
+}
+
+// nonNegForRem masks the sign bit of a signed dividend most of the time when
+// the target leaves % with a negative operand undefined (known finding
+// C05-13), so that auxiliary "x % literal" forms do not throw the case away.
+func (g *gen) nonNegForRem(x Expr, xt *Type) Expr {
+	if xt.S != I32 || !g.f.off("rem.negative") || !g.chance(85, "remnn2") {
+		return x
+	}
+	var m Expr = &Lit{T: TI32, Bits: 0x7fffffff}
+	if xt.K != TScalar {
+		m = &Construct{T: xt, Args: []Expr{m}}
+	}
+	return &Binary{Op: "&", L: x, R: m, T: xt}
 }
